@@ -33,6 +33,13 @@ inductive PStep
   | setExpected (n : Nat)          -- `expectedLeaks_ = n;`
 deriving DecidableEq, Repr, Inhabited
 
+/-- where a field of the node that `reallocMemory` re-registers after a FAILED platform realloc
+    comes from: the saved copy of the old node (`oldNode.x_`), or the detector's current value
+    (`current_period_`, `allocationSequenceNumber_++`, the requested `size`) -/
+inductive FieldSrc
+  | old | fresh
+deriving DecidableEq, Repr, Inhabited
+
 /-- the calls of `UtestShell::runOneTestInCurrentProcess`, in source order -/
 inductive RStep
   | preActions | createTest | runTest | destroyTest | postActions
